@@ -384,10 +384,26 @@ def r4(ctx):
                       "the block returns the gradient appended last (wrt. the block's input)",
                       "Feedback::backward returns %s as the gradient wrt. its input; after walking all (repeated) layers back the input gradient "
                       "is the entry appended last" % (e6.show(r0, 3)[:120] if r0 is not None else "?"))
+        # what is returned is what the walk recorded: no in-place change (reverse, swap, truncate, sort, an element overwritten ..) between the walk and the
+        # return touches the gradient lists
+        tampered = [u_ for comp_ in comps for u_ in e6.find_terms(comp_, lambda u_: u_[0] == "upd")]
+        later = []
+        seen_walk = False
+        for e_ in P.eff:
+            if e_[0] == "loop" and e_[1] == walk_l:
+                seen_walk = True
+                continue
+            if seen_walk and e_[0] in ("mut", "set", "push") and e6.root_name(e_[1] if e_[0] in ("set", "push") else e_[2]) in (g_n, wg_n, bg_n):
+                later.append(e_)
+        ctx.check("R01.4", short_name + ":results-returned-as-recorded", not tampered and not later,
+                  "gradient-lists-changed-after-walk:" + _re.sub(r"#\w+", "", short(e6.show(tampered[0], 2) if tampered else (later[0][1] if later else ""), 60)), where,
+                  "the returned gradient lists are the ones the walk filled, unchanged",
+                  "%s changes a gradient list after the backward walk (%s): the gradients no longer line up with the layers they belong to"
+                  % (fpath, e6.show(tampered[0], 2)[:100] if tampered else (later[0][1] if later else "")))
         ctx.check("R01.4", short_name + ":result-routing", bool(routing) and all(x[0] for x in routing), "result-components-routed-wrongly:" + short(next((x[1] for x in routing if not x[0]), ""), 80), wloc,
                   "(dX, dW, db) -> gradients / weight / bias lists")
     ctx.guard("R01.4", "record-layout", forward_record_layout, ctx, "R01.4")
-    ctx.floor("R01.4", 18 + 3 + 1, "two walks: walk form, idx, input, output, arms, routing; record layout of Network::forward")
+    ctx.floor("R01.4", 18 + 3 + 1 + 2, "two walks: walk form, idx, input, output, arms, routing; record layout of Network::forward")
 
 
 def forward_record_layout(ctx, rule):
